@@ -100,6 +100,29 @@ def run(ctx):
         jobs.append((a, hs[:per_algo]))
     traces = ctx.drive("c10_hash", [], inp={"jobs": jobs, "tid0": 500000})
     judge("hash", "HashObjTrace", None, traces)
+    # ---- 3b. the repository's own tests as traces: every AEAD object any existing test creates is wrapped in a recording proxy
+    #          and its whole life is judged by the same trace specifications (DESIGN.md section 9, item 5)
+    # (test_GCM and test_OCB replay tens of thousands of published vectors and take a minute: thorough tier only)
+    files = ["Cipher/test_CCM.py", "Cipher/test_EAX.py", "Cipher/test_SIV.py"] if quick else \
+            ["Cipher/test_GCM.py", "Cipher/test_CCM.py", "Cipher/test_EAX.py", "Cipher/test_OCB.py", "Cipher/test_SIV.py"]
+    res = ctx.drive("suite_run", files, timeout=3000)
+    suite = res["traces"]
+    ctx.extra["repo_tests_under_tracing"] = res["pytest_summary"]
+    rnd2 = random.Random(ctx.seed + 5)
+    rnd2.shuffle(suite)
+    byfam = {}
+    for t in suite:
+        byfam.setdefault(t["family"], []).append(t)
+    cap_suite = 500 if quick else 10 ** 6
+    tid0 = 2000000
+    for fam in sorted(byfam):
+        trs = byfam[fam][:cap_suite]
+        for i, t in enumerate(trs):
+            t["tid"] = tid0 + i
+            t["algo"] = "repo-test"
+        tid0 += len(trs)
+        module, cfg_text = TRACE_CFG.get(fam, ("FsmObjTrace", None))
+        judge(fam + "(repo tests)", module, cfg_text, trs)
     # ---- 4. binding self-checks (a corrupted record must be rejected)
     def first_ok_index(t):
         return next(i for i, e in enumerate(t["events"]) if e["exc"] == "none")
